@@ -49,67 +49,75 @@ inductive Err where
   | lex | parse | eof | value | internal (msg : String)
   deriving Repr, DecidableEq
 
-/-- Semantic actions, keyed by the production text (children in source order). -/
-def act (prod : String) (c : List Val) : Except Err Val :=
+/-- Semantic actions, keyed by the production *index* in PLY's production table (children in source
+order); the comment behind each case is the production, and `C14.productions_expected` pins the table's
+order to exactly this numbering on every run. -/
+def actI (prod : Nat) (c : List Val) : Except Err Val :=
   match prod, c with
-  | "S' -> input", [v] => .ok v
-  | "input -> expr", [v] => .ok v
-  | "input -> empty", [v] => .ok v
-  | "empty -> <empty>", [] => .ok .none
-  | "expr -> expr OR expr", [.node a, .tok o, .node b] => .ok (.node (.binary a (upper o.val) b))
-  | "expr -> expr AND expr", [.node a, .tok o, .node b] => .ok (.node (.binary a (upper o.val) b))
-  | "expr -> NOT expr", [.tok o, .node a] => .ok (.node (.unary (upper o.val) a))
-  | "expr -> bool_primary", [v] => .ok v
-  | "bool_primary -> bool_primary EQ predicate", [.node a, .tok o, .node b] => .ok (.node (.binary a o.val b))
-  | "bool_primary -> bool_primary NE predicate", [.node a, .tok o, .node b] => .ok (.node (.binary a o.val b))
-  | "bool_primary -> bool_primary LT predicate", [.node a, .tok o, .node b] => .ok (.node (.binary a o.val b))
-  | "bool_primary -> bool_primary LE predicate", [.node a, .tok o, .node b] => .ok (.node (.binary a o.val b))
-  | "bool_primary -> bool_primary GE predicate", [.node a, .tok o, .node b] => .ok (.node (.binary a o.val b))
-  | "bool_primary -> bool_primary GT predicate", [.node a, .tok o, .node b] => .ok (.node (.binary a o.val b))
-  | "bool_primary -> bool_primary OVERLAPS predicate", [.node a, .tok o, .node b] => .ok (.node (.binary a o.val b))
-  | "bool_primary -> predicate", [v] => .ok v
-  | "predicate -> bit_expr IN LPAREN literal_or_id_list RPAREN", [.node a, _, _, .list l, _] => .ok (.node (.isIn a l false))
-  | "predicate -> bit_expr NOT IN LPAREN literal_or_id_list RPAREN", [.node a, _, _, _, .list l, _] => .ok (.node (.isIn a l true))
-  | "predicate -> bit_expr", [v] => .ok v
-  | "identifier -> SIMPLE_IDENTIFIER", [.tok t] => .ok (.node (.ident t.val))
-  | "identifier -> QUALIFIED_IDENTIFIER", [.tok t] => .ok (.node (.ident t.val))
-  | "literal_or_id_list -> literal_or_id_list COMMA literal", [.list l, _, .node x] => .ok (.list (l ++ [x]))
-  | "literal_or_id_list -> literal_or_id_list COMMA identifier", [.list l, _, .node x] => .ok (.list (l ++ [x]))
-  | "literal_or_id_list -> literal_or_id_list COMMA bind_name", [.list l, _, .node x] => .ok (.list (l ++ [x]))
-  | "literal_or_id_list -> literal", [.node x] => .ok (.list [x])
-  | "literal_or_id_list -> identifier", [.node x] => .ok (.list [x])
-  | "literal_or_id_list -> bind_name", [.node x] => .ok (.list [x])
-  | "bind_name -> BIND_NAME", [.tok t] => .ok (.node (.bind t.val))
-  | "bit_expr -> bit_expr ADD bit_expr", [.node a, .tok o, .node b] => .ok (.node (.binary a o.val b))
-  | "bit_expr -> bit_expr SUB bit_expr", [.node a, .tok o, .node b] => .ok (.node (.binary a o.val b))
-  | "bit_expr -> bit_expr MUL bit_expr", [.node a, .tok o, .node b] => .ok (.node (.binary a o.val b))
-  | "bit_expr -> bit_expr DIV bit_expr", [.node a, .tok o, .node b] => .ok (.node (.binary a o.val b))
-  | "bit_expr -> bit_expr MOD bit_expr", [.node a, .tok o, .node b] => .ok (.node (.binary a o.val b))
-  | "bit_expr -> simple_expr", [v] => .ok v
-  | "simple_expr -> literal", [v] => .ok v
-  | "simple_expr -> identifier", [v] => .ok v
-  | "simple_expr -> bind_name", [v] => .ok v
-  | "simple_expr -> function_call", [v] => .ok v
-  | "simple_expr -> ADD simple_expr", [.tok o, .node a] => .ok (.node (.unary o.val a))
-  | "simple_expr -> SUB simple_expr", [.tok o, .node a] => .ok (.node (.unary o.val a))
-  | "simple_expr -> LPAREN expr RPAREN", [_, .node a, _] => .ok (.node (.parens a))
-  | "simple_expr -> LPAREN expr COMMA expr RPAREN", [_, .node a, _, .node b, _] => .ok (.node (.tuple a b))
-  | "literal -> NUMERIC_LITERAL", [.tok t] => .ok (.node (.num t.val))
-  | "literal -> ADD NUMERIC_LITERAL", [.tok s, .tok t] => .ok (.node (.num (s.val ++ t.val)))
-  | "literal -> SUB NUMERIC_LITERAL", [.tok s, .tok t] => .ok (.node (.num (s.val ++ t.val)))
-  | "literal -> STRING_LITERAL", [.tok t] => .ok (.node (.str t.val))
-  | "literal -> TIME_LITERAL", [.tok t] => .ok (.node (.time t.val))
-  | "literal -> RANGE_LITERAL", [.tok t] => .ok (.node (.range t.val))
-  | "function_call -> SIMPLE_IDENTIFIER LPAREN expr_list RPAREN", [.tok f, _, .list args, _] =>
+  | 0, /- S' -> input -/ [v] => .ok v
+  | 1, /- input -> expr -/ [v] => .ok v
+  | 2, /- input -> empty -/ [v] => .ok v
+  | 3, /- empty -> ε -/ [] => .ok .none
+  | 4, /- expr -> expr OR expr -/ [.node a, .tok o, .node b] => .ok (.node (.binary a (upper o.val) b))
+  | 5, /- expr -> expr AND expr -/ [.node a, .tok o, .node b] => .ok (.node (.binary a (upper o.val) b))
+  | 6, /- expr -> NOT expr -/ [.tok o, .node a] => .ok (.node (.unary (upper o.val) a))
+  | 7, /- expr -> bool_primary -/ [v] => .ok v
+  | 8, /- bool_primary -> bool_primary EQ predicate -/ [.node a, .tok o, .node b] => .ok (.node (.binary a o.val b))
+  | 9, /- bool_primary -> bool_primary NE predicate -/ [.node a, .tok o, .node b] => .ok (.node (.binary a o.val b))
+  | 10, /- bool_primary -> bool_primary LT predicate -/ [.node a, .tok o, .node b] => .ok (.node (.binary a o.val b))
+  | 11, /- bool_primary -> bool_primary LE predicate -/ [.node a, .tok o, .node b] => .ok (.node (.binary a o.val b))
+  | 12, /- bool_primary -> bool_primary GE predicate -/ [.node a, .tok o, .node b] => .ok (.node (.binary a o.val b))
+  | 13, /- bool_primary -> bool_primary GT predicate -/ [.node a, .tok o, .node b] => .ok (.node (.binary a o.val b))
+  | 14, /- bool_primary -> bool_primary OVERLAPS predicate -/ [.node a, .tok o, .node b] => .ok (.node (.binary a o.val b))
+  | 15, /- bool_primary -> predicate -/ [v] => .ok v
+  | 16, /- predicate -> bit_expr IN LPAREN literal_or_id_list RPAREN -/ [.node a, _, _, .list l, _] => .ok (.node (.isIn a l false))
+  | 17, /- predicate -> bit_expr NOT IN LPAREN literal_or_id_list RPAREN -/ [.node a, _, _, _, .list l, _] => .ok (.node (.isIn a l true))
+  | 18, /- predicate -> bit_expr -/ [v] => .ok v
+  | 19, /- identifier -> SIMPLE_IDENTIFIER -/ [.tok t] => .ok (.node (.ident t.val))
+  | 20, /- identifier -> QUALIFIED_IDENTIFIER -/ [.tok t] => .ok (.node (.ident t.val))
+  | 21, /- literal_or_id_list -> literal_or_id_list COMMA literal -/ [.list l, _, .node x] => .ok (.list (l ++ [x]))
+  | 22, /- literal_or_id_list -> literal_or_id_list COMMA identifier -/ [.list l, _, .node x] => .ok (.list (l ++ [x]))
+  | 23, /- literal_or_id_list -> literal_or_id_list COMMA bind_name -/ [.list l, _, .node x] => .ok (.list (l ++ [x]))
+  | 24, /- literal_or_id_list -> literal -/ [.node x] => .ok (.list [x])
+  | 25, /- literal_or_id_list -> identifier -/ [.node x] => .ok (.list [x])
+  | 26, /- literal_or_id_list -> bind_name -/ [.node x] => .ok (.list [x])
+  | 27, /- bind_name -> BIND_NAME -/ [.tok t] => .ok (.node (.bind t.val))
+  | 28, /- bit_expr -> bit_expr ADD bit_expr -/ [.node a, .tok o, .node b] => .ok (.node (.binary a o.val b))
+  | 29, /- bit_expr -> bit_expr SUB bit_expr -/ [.node a, .tok o, .node b] => .ok (.node (.binary a o.val b))
+  | 30, /- bit_expr -> bit_expr MUL bit_expr -/ [.node a, .tok o, .node b] => .ok (.node (.binary a o.val b))
+  | 31, /- bit_expr -> bit_expr DIV bit_expr -/ [.node a, .tok o, .node b] => .ok (.node (.binary a o.val b))
+  | 32, /- bit_expr -> bit_expr MOD bit_expr -/ [.node a, .tok o, .node b] => .ok (.node (.binary a o.val b))
+  | 33, /- bit_expr -> simple_expr -/ [v] => .ok v
+  | 34, /- simple_expr -> literal -/ [v] => .ok v
+  | 35, /- simple_expr -> identifier -/ [v] => .ok v
+  | 36, /- simple_expr -> bind_name -/ [v] => .ok v
+  | 37, /- simple_expr -> function_call -/ [v] => .ok v
+  | 38, /- simple_expr -> ADD simple_expr -/ [.tok o, .node a] => .ok (.node (.unary o.val a))
+  | 39, /- simple_expr -> SUB simple_expr -/ [.tok o, .node a] => .ok (.node (.unary o.val a))
+  | 40, /- simple_expr -> LPAREN expr RPAREN -/ [_, .node a, _] => .ok (.node (.parens a))
+  | 41, /- simple_expr -> LPAREN expr COMMA expr RPAREN -/ [_, .node a, _, .node b, _] => .ok (.node (.tuple a b))
+  | 42, /- literal -> NUMERIC_LITERAL -/ [.tok t] => .ok (.node (.num t.val))
+  | 43, /- literal -> ADD NUMERIC_LITERAL -/ [.tok s, .tok t] => .ok (.node (.num (s.val ++ t.val)))
+  | 44, /- literal -> SUB NUMERIC_LITERAL -/ [.tok s, .tok t] => .ok (.node (.num (s.val ++ t.val)))
+  | 45, /- literal -> STRING_LITERAL -/ [.tok t] => .ok (.node (.str t.val))
+  | 46, /- literal -> TIME_LITERAL -/ [.tok t] => .ok (.node (.time t.val))
+  | 47, /- literal -> RANGE_LITERAL -/ [.tok t] => .ok (.node (.range t.val))
+  | 48, /- function_call -> SIMPLE_IDENTIFIER LPAREN expr_list RPAREN -/ [.tok f, _, .list args, _] =>
       if upper f.val == "POINT" then
         match args with
         | [a, b] => .ok (.node (.point a b))
         | _ => .error .value                   -- ValueError("POINT requires two arguments")
       else .ok (.node (.func f.val args))
-  | "expr_list -> expr_list COMMA expr", [.list l, _, .node x] => .ok (.list (l ++ [x]))
-  | "expr_list -> expr", [.node x] => .ok (.list [x])
-  | "expr_list -> empty", [.none] => .ok (.list [])
-  | p, _ => .error (.internal ("no semantic action for production " ++ p))
+  | 49, /- expr_list -> expr_list COMMA expr -/ [.list l, _, .node x] => .ok (.list (l ++ [x]))
+  | 50, /- expr_list -> expr -/ [.node x] => .ok (.list [x])
+  | 51, /- expr_list -> empty -/ [.none] => .ok (.list [])
+  | p, _ => .error (.internal ("no semantic action for production " ++ toString p))
+
+/-- The semantic action of a production given by its text (what PLY binds through the docstrings). -/
+def act (prod : String) (c : List Val) : Except Err Val :=
+  match Gen.Grammar.productions.findIdx? (·.1 == prod) with
+  | some i => actI i c
+  | none => .error (.internal ("no semantic action for production " ++ prod))
 
 /-- Fetch the next token lazily (PLY calls the lexer only when it needs a lookahead). -/
 def nextTok : Nat → List Char → Except Err (Option Tok × List Char)
@@ -130,11 +138,11 @@ structure PState where
 def reduce (ps : PState) (prodIdx : Nat) : Except Err PState :=
   match Gen.Grammar.productions[prodIdx]? with
   | none => .error (.internal "bad production index")
-  | some (text, lhs, len) =>
+  | some (_, lhs, len) =>
     let children := (ps.vals.take len).reverse
     let vals' := ps.vals.drop len
     let states' := ps.states.drop len
-    match act text children with
+    match actI prodIdx children with
     | .error e => .error e
     | .ok v =>
       match states'.head? with
